@@ -814,6 +814,7 @@ impl Engine for DfEngine {
         let mut shrink = 0usize;
         let mut alloc_limit = 64 << 20;
         let mut damaged = false;
+        let mut read_time_only_faults = 0usize;
         for op in &case.ops {
             match *op {
                 DfOp::Truncate { at } => {
@@ -905,6 +906,7 @@ impl Engine for DfEngine {
                 DfOp::CbError { at_call } => {
                     fail_at = Some(at_call as u64);
                     damaged = true;
+                    read_time_only_faults += 1;
                 }
                 DfOp::ShrinkAfterOpen { n } => {
                     shrink = n as usize;
@@ -913,6 +915,7 @@ impl Engine for DfEngine {
                 DfOp::AllocLimit { bytes: b } => {
                     alloc_limit = b as usize;
                     damaged = true;
+                    read_time_only_faults += 1;
                 }
             }
         }
@@ -987,6 +990,26 @@ impl Engine for DfEngine {
                     if v4 != (cfg.version == 4) {
                         return Some(v("stored-content-differs", &[("what", "version")], format!("version() = {:?} for a version {} file", reader.version(), cfg.version)));
                     }
+                }
+            }
+            (Ok((types, items, data)), true) if read_time_only_faults == case.ops.len() => {
+                // the stored bytes are intact; only reads failed (one hard error, refused allocations): an operation
+                // may fail, but whatever succeeds must be exactly what was stored
+                ctx.count("probe_intact_file_read_with_io_errors");
+                let mut want_types: Vec<u16> = m.items.iter().map(|i| i.type_id).collect();
+                want_types.dedup();
+                if *types != want_types || *items != m.items {
+                    return Some(v("stored-content-differs", &[("what", "items"), ("under", "read-errors")], format!("with read-time faults only: {} items / {} types returned, {} / {} stored", items.len(), types.len(), m.items.len(), want_types.len())));
+                }
+                for (i, (g, w)) in data.iter().zip(m.data.iter()).enumerate() {
+                    if let Ok(d) = g {
+                        if d != w {
+                            return Some(v("stored-content-differs", &[("what", "data"), ("under", "read-errors")], format!("with read-time faults only: read_data({}) succeeded with {} bytes that differ from the {} stored bytes", i, d.len(), w.len())));
+                        }
+                    }
+                }
+                if data.len() != m.data.len() {
+                    return Some(v("stored-content-differs", &[("what", "data-count"), ("under", "read-errors")], format!("{} data blocks visited, {} stored", data.len(), m.data.len())));
                 }
             }
             (Ok(_), true) => ctx.count("probe_damaged_file_accepted"),
